@@ -1,5 +1,5 @@
 """C11 - published segments appear / disappear as a whole."""
-from . import flushspec, handoverspec
+from . import allocspec, flushspec, handoverspec
 from ._util import pick
 
 FILTERS = []
@@ -13,4 +13,6 @@ def obligations(ctx):
     out += pick(flushspec.index_builder(ctx), [("B-2d", "index-rmw-under-lock")])
     ho = handoverspec.commit_batch(ctx)
     out += pick(ho, [("B-3", "exists-before-index"), ("B-3b", "index-before-livelist"), ("B-3c", "index-under-flush-lock")])
+    out += pick(allocspec.allocator_step(ctx), [("B-4", "allocator-step"), ("B-4r", "allocator-range")])
+    out += pick(allocspec.plan_output_ids(ctx), [("B-5", "fresh-output-id")])
     return out
